@@ -47,6 +47,9 @@ type shape struct {
 	Cfg        int     `json:"config"`
 	Faults     []fault `json:"faults"`
 	YieldP     float64 `json:"yield"`
+	// Scribble: every stage handler edits the copy it received (UUID, metadata, payload re-assigned) once it has derived its outputs from it, or right before it fails. The copy is the
+	// handler's own: what a failed attempt did to it must not show up in the redelivery, which has to be the published message again.
+	Scribble bool `json:"handler_edits_received_copy,omitempty"`
 }
 
 // outs is the number of messages a stage's handler returns per input.
@@ -197,6 +200,7 @@ func init() {
 			"plus a run block: one stage fails on 4 or 7 consecutive calls (each fault kind, and handler/publisher panics alternating) x 2 stages x 12 configs; " +
 			"plus a context-aware block: 2 stages whose handlers fail at once when the consumed message's context has ended x 12 configs x every single fault; " +
 			"random part: 1..4 stages, in 15% of the cases one non-source topic is the empty string, up to 12 faults on random calls plus (30%) a run of 3..10 consecutive failing calls of one stage, context-aware handlers on half of the stages of 40% of the cases, per-stage output mode {fresh, fresh with the consumed message's context, passthrough of the consumed message}, optional fan-out stage (2 outputs) or 1..3 outputs on every stage, optional stage with two handlers on its topic, optional fan-in (two first stages into one topic), 1..8 messages from 1..2 publisher goroutines, up to 12 faults on random calls, yield injection at the router/gochannel hook points. " +
+			"in half of all cases (by case id) every stage handler edits the copy it received (UUID, metadata, payload re-assigned) after deriving its outputs or right before failing - a redelivery has to be the published message again, not what a failed attempt left behind; " +
 			"Oracle at quiescence: every accepted source message has >=1 arrival per expected lineage at the sink subscription; every arrival's lineage is one the pipeline can produce from an accepted source message and its payload is intact; the consumed message of a stage is still unsettled when the Publish of its output returns nil; a source Publish never hangs; the process does not crash. " +
 			"Non-trivial: >=1 injected fault actually fired. Distinct = (shape, faults fired, hook fingerprint).",
 		Assumptions: []string{
@@ -346,6 +350,7 @@ func run(e *vlib.Env) vlib.Result {
 		sh = genRandom(e)
 		class = "random"
 	}
+	sh.Scribble = vlib.HashStr(e.ID()+"/scribble")%2 == 0
 	cfg := gochannel.Config{OutputChannelBuffer: []int64{0, 1, 4}[sh.Cfg%3], Persistent: (sh.Cfg/3)%2 == 1, BlockPublishUntilSubscriberAck: sh.Cfg/6 == 1}
 	res := vlib.Result{Class: fmt.Sprintf("%s/stages=%d/faults=%d", class, sh.Stages, len(sh.Faults)), Spec: sh}
 	id := e.ID()
@@ -398,6 +403,16 @@ func run(e *vlib.Env) vlib.Result {
 				}
 				return nil, in.Context().Err()
 			}
+			scribble := func() {
+				if sh.Scribble {
+					in.UUID += "/edited-by-an-attempt"
+					in.Metadata.Set("attempt_of_stage", fmt.Sprint(stage))
+					in.Payload = []byte("edited-by-an-attempt")
+				}
+			}
+			if k != "" {
+				scribble()
+			}
 			switch k {
 			case "handler-error":
 				switch (stage + call) % 3 {
@@ -434,6 +449,7 @@ func run(e *vlib.Env) vlib.Result {
 				w.consumed[o] = in
 			}
 			w.mu.Unlock()
+			scribble()
 			return outs, nil
 		}
 	}
